@@ -160,6 +160,10 @@ func ruleQueueOwners(c *Ctx) {
 		switch {
 		case u.owner == ownerField && isPush:
 			npush++
+			if cc := callCommon(u.ins); cc != nil && len(cc.Args) == 2 && isNilConst(stripConv(cc.Args[1])) && u.fn == p.Func("media", "(*consumption).Close") {
+				c.OK(key, p.InstrPos(u.ins), "nil wake-up sentinel pushed by consumption.Close (carries no packet; the delivery loop skips nil)")
+				continue
+			}
 			c.Decide(u.fn == send, key, p.InstrPos(u.ins), "enqueue into a consumer queue in consumption.send", "enqueue into a consumer queue outside consumption.send: a second producer breaks FIFO = published order / at-most-once")
 		case u.owner == ownerField && isPop:
 			npop++
@@ -422,7 +426,7 @@ func ruleSendOnce(c *Ctx) {
 				return []bfState{s}
 			}
 			if st, ok := ins.(*ssa.Store); ok {
-				if f, base, ok := fieldAddr(st.Addr); ok && f == disc && base == recv {
+				if f, base, ok := fieldAddr(st.Addr); ok && f == disc && origin(base) == recv {
 					if b, ok := constBool(st.Val); ok {
 						if b {
 							s.Val = 1
@@ -447,7 +451,7 @@ func ruleSendOnce(c *Ctx) {
 		},
 		Branch: func(s bfState, cond ssa.Value, taken bool) (bfState, bool) {
 			cv, neg := condNeg(cond)
-			if f, base, ok := fieldLoad(cv); ok && f == disc && base == recv {
+			if f, base, ok := fieldLoad(cv); ok && f == disc && origin(base) == recv {
 				val := taken != neg
 				want := int8(2)
 				if val {
@@ -500,7 +504,7 @@ func ruleSendOnce(c *Ctx) {
 			}
 		}
 		r := ret.(*ssa.Return)
-		if b, isc := constBool(r.Results[0]); !isc || !b {
+		if b, isc := constBool(retValue(r, 0)); !isc || !b {
 			ok = false
 			c.Bad("SendToAll.closure:continues", p.InstrPos(ret), "the fan-out closure can return a value other than the constant true: sync.Map.Range stops and the remaining consumers do not receive the packet (what one consumer receives then depends on other consumers)")
 		}
